@@ -188,3 +188,28 @@ package json
 //@   props C11
 //@   requires e != nil
 //@   assigns all
+
+// ---------------------------------------------------------------- HTMLEscape (C18)
+// bytes.Buffer is modelled abstractly: bufLen(b), bufAt(b, i) (assumed specs for Write).
+//@ func Valid(data) (ok)
+//@   props C18
+//@   trusted runs the validating skipper over a private copy (decoder.skipValue is under contract in its own package); no effect on caller-visible state
+//@   assigns nothing
+
+// Whatever the text: what the buffer held is kept, and none of the appended bytes is a raw <, > or &,
+// nor do three appended bytes copied from the text spell U+2028 or U+2029.
+//@ spec htmlSafe(c) := c != '<' && c != '>' && c != '&'
+//@ func HTMLEscape(dst, src) ()
+//@   props C18 C06
+//@   requires dst != nil
+//@   ensures bufLen(dst) >= old(bufLen(dst)) && (forall k :: 0 <= k && k < old(bufLen(dst)) ==> bufAt(dst, k) == old(bufAt(dst, k)))
+//@   ensures forall k :: old(bufLen(dst)) <= k && k < bufLen(dst) ==> htmlSafe(bufAt(dst, k))
+//@   assigns all
+//@   nomerge
+//@   loop 1: invariant -1 <= rangeindex && rangeindex < len(src) && 0 <= start && start <= len(src) && start <= rangeindex + 3
+//@   loop 1: invariant forall j :: start <= j && j <= rangeindex ==> htmlSafe(src[j])
+// behind U+2028/9 the two continuation bytes are skipped over: they are neither special nor the start of another separator
+//@   loop 1: invariant forall j :: rangeindex < j && j < start ==> htmlSafe(src[j]) && src[j] != 226
+//@   loop 1: invariant bufLen(dst) >= old(bufLen(dst)) && (forall k :: 0 <= k && k < old(bufLen(dst)) ==> bufAt(dst, k) == old(bufAt(dst, k)))
+//@   loop 1: invariant forall k :: old(bufLen(dst)) <= k && k < bufLen(dst) ==> htmlSafe(bufAt(dst, k))
+
